@@ -9,8 +9,10 @@ tier = sys.argv[1]
 m = json.load(open('/verif/MANIFEST.json'))
 path = '/verif/timings.json'
 t = json.load(open(path)) if os.path.exists(path) else {}
+only = os.environ.get('ONLY', '').split()
 for c in m['checks']:
     pid = c['property_id']
+    if only and pid not in only: continue
     t0 = time.time()
     r = subprocess.run(['/verif/check', pid, '--tier', tier], capture_output=True, text=True, cwd='/verif')
     wall = time.time() - t0
